@@ -117,6 +117,17 @@ def run_server(cfg, strategy, max_steps=30000):
             return i
         return id(obj)
 
+    class CallerIndexCounter:
+        """stands in for itertools.count() in Server.__init__: the request of caller thread i gets uid i, so that
+        uids are unique and the log identifies requests by caller"""
+
+        def __iter__(self):
+            return self
+
+        def __next__(self):
+            t = S.me().name
+            return int(t.split('-')[1]) if t.startswith('caller-') else 10_000
+
     def caller(i):
         c = cfg['callers'][i]
         t0 = S.clock
@@ -141,7 +152,15 @@ def run_server(cfg, strategy, max_steps=30000):
         nonlocal server
         import threading
         server = _server.Server(FakeServlet(cfg['nworkers'], fail, S), capacity=cfg['capacity'])
-        server._uid_to_futures = vprims.LoggingDict()
+        class Ledger(vprims.LoggingDict):
+            def __setitem__(self, k, v):
+                try:
+                    v.vid = k          # the future is identified in the log by its request id
+                except Exception:
+                    pass
+                super().__setitem__(k, v)
+        server._uid_to_futures = Ledger()
+        server._uid_counter = CallerIndexCounter()
         stats['ledger'] = server._uid_to_futures
         try:
             with server:
